@@ -1,2 +1,71 @@
-(* C04 -- placeholder *)
-Theorem C04_placeholder : True. Proof. exact I. Qed.
+(* C04 -- protocol violations are detected, reported once, and fail the connection.  Statements only. *)
+From Coq Require Import List NArith Bool.
+From Coq.Strings Require Import Byte.
+From Model Require Import Bytes Utf8 Frame Parser FrameParser Conn.
+From Proofs Require Import ConnFacts TraceFacts ViolationFacts GenTie.
+From Gen Require Import GenFrame GenStatus.
+Import ListNotations.
+Open Scope N_scope.
+
+(* (regenerated obligations) the verdicts of the running Frame.validate / CompressedFrame.validate over all
+   2 x 16 x 2 x 2 x 2 x 2 x 3 combinations, and Status.invalid_codes, equal the model's predicates *)
+Theorem C04_validate_table : forall cls op fin r1 r2 r3 lc,
+  cls < 2 -> op < 16 -> fin < 2 -> r1 < 2 -> r2 < 2 -> r3 < 2 -> lc < 3 ->
+  nth_error impl_validate_tbl (vidx cls op fin r1 r2 r3 lc) = Some (model_verdict cls op fin r1 r2 r3 lc).
+Proof. exact impl_validate_is_model. Qed.
+Print Assumptions C04_validate_table.
+Theorem C04_opcode_table : opcode_tbl_ok = true.
+Proof. exact opcode_tbl_ok_true. Qed.
+Theorem C04_close_codes : forall c, in_ranges impl_invalid_ranges c = invalid_close_code c.
+Proof. exact impl_invalid_codes_is_model. Qed.
+Print Assumptions C04_close_codes.
+Theorem C04_reserved_codes_rejected : forall c, reserved_close c -> invalid_close_code c = true.
+Proof. exact reserved_codes_rejected. Qed.
+Theorem C04_valid_codes_accepted : forall c, definitely_valid c -> invalid_close_code c = false.
+Proof. exact valid_codes_accepted. Qed.
+
+(* the model's header check is exactly the RFC's list of per-header violations *)
+Theorem C04_header_rules : forall compression h len,
+  validate_err compression h len = true <-> header_violation compression h len.
+Proof. exact validate_err_iff. Qed.
+Print Assumptions C04_header_rules.
+
+(* each class of violation is an error at the point where the parser / stream / message builder meets it *)
+Theorem C04_header_violation_raises : forall g h len key, validate_err (fp_compression g) h len = true ->
+  after_mask g h len key = RErr PE_Protocol.
+Proof. exact header_violation_raises. Qed.
+Theorem C04_length_2_63_raises : forall g h len, 9223372036854775807 < len -> after_len g h len = RErr PE_Protocol.
+Proof. exact huge_length_raises. Qed.
+Theorem C04_masked_frame_raises : forall g h key payload, h_mask h = true -> finish_frame g h key payload = RErr PE_Protocol.
+Proof. exact masked_frame_raises. Qed.
+Theorem C04_continuation_discipline : forall c f, is_control (f_op f) = false ->
+  (stream_frame c f = SErr <-> (f_op f = OP_CONT /\ k_frames c = []) \/ (f_op f <> OP_CONT /\ k_frames c <> [])).
+Proof. exact stream_discipline. Qed.
+Print Assumptions C04_continuation_discipline.
+Theorem C04_close_one_byte : forall c b, snd (build_message c [mk_close [b]]) = inr MProtocol.
+Proof. exact close_one_byte_is_error. Qed.
+Theorem C04_close_reason_not_utf8 : forall c a b reason, ~ utf8_wf reason ->
+  snd (build_message c [mk_close (a :: b :: reason)]) = inr MCritical.
+Proof. exact close_bad_reason_is_error. Qed.
+Theorem C04_reserved_close_code : forall cf app c code reason, invalid_close_code code = true ->
+  on_message cf app c (MClose (Some code) reason) = (let '(c1, st) := raise_in_feed cf app c MProtocol in (c1, st, FBreak)).
+Proof. exact reserved_close_code_raises. Qed.
+
+(* the error path: exactly one ProtocolError event is appended; after it only housekeeping events (Poll, Unresponsive),
+   the application's own calls and the library's single Close(1002); never a message event.  And the loop over the
+   stream stops: the status is never SOk, so nothing of the violating frame or after it is ever parsed *)
+Theorem C04_one_protocol_error : forall cf app c e,
+  exists l, k_tr (fst (raise_in_feed cf app c e)) =
+            l ++ TEv (EvProtocolError (match e with MCritical => true | MProtocol => false end)) :: k_tr c
+            /\ Forall housekeeping l.
+Proof. exact raise_in_feed_trace. Qed.
+Print Assumptions C04_one_protocol_error.
+Theorem C04_error_stops_the_stream : forall cf app c e, snd (raise_in_feed cf app c e) <> SOk.
+Proof. exact raise_in_feed_not_ok. Qed.
+Print Assumptions C04_error_stops_the_stream.
+
+Example C04_nonvacuous :
+  header_violation false {| h_fin := true; h_r1 := false; h_r2 := false; h_r3 := false; h_op := 9; h_mask := false |} 126 /\
+  validate_err true {| h_fin := true; h_r1 := true; h_r2 := false; h_r3 := false; h_op := 1; h_mask := false |} 10 = false /\
+  invalid_close_code 1005 = true /\ invalid_close_code 1000 = false.
+Proof. repeat split; try reflexivity. right. right. right. right. right. split; [reflexivity|reflexivity]. Qed.
